@@ -22,8 +22,9 @@ CD_ARGS = [
 PUSHD_ARGS = [
     [], ["a"], ["{R}/c"], ["{R}/a/b"], ["+0"], ["+1"], ["+2"], ["-0"], ["-1"], ["+9"], ["+x"], ["missing"],
     ["-n", "{R}/c"], ["-q", "{R}/a"], ["noexec"], ["f"], ["l"],
+    ["x1"], ["12"],  # neither a directory nor +N / -N: a character plus digits, bare digits
 ]
-POPD_ARGS = [[], ["+0"], ["+1"], ["-0"], ["-1"], ["+2"], ["+9"], ["-n"], ["+x"], ["-q"]]
+POPD_ARGS = [[], ["+0"], ["+1"], ["-0"], ["-1"], ["+2"], ["+9"], ["-n"], ["+x"], ["-q"], ["1"]]
 DIRS_OBS = [[], ["-p"], ["-v"], ["-l"], ["+0"], ["+1"], ["-0"], ["-1"], ["+9"], ["+x"], ["-l", "-p"]]
 TOGGLES = [
     ("AUTO_PUSHD", True), ("PUSHD_MINUS", True), ("CDPATH", "a"), ("DIRSTACK_SIZE", 1), ("DIRSTACK_SIZE", 2),
